@@ -2783,6 +2783,9 @@ func (uconn *UConn) ApplyPreset(p *ClientHelloSpec) error {
 	}
 	uconn.echCtx = ech
 	hello := uconn.HandshakeState.Hello
+	// extended_master_secret is offered only if the spec carries the extension:
+	// ExtendedMasterSecretExtension.writeToUConn sets the flag again.
+	hello.Ems = false
 
 	switch len(hello.Random) {
 	case 0:
